@@ -129,9 +129,13 @@ def map_instance_labels(
     prediction_arr_relabeled = _map_labels(prediction_arr, pred_labelmap)  # type:ignore
 
     # Build a MatchedInstancePair out of the newly derived data
+    reference_arr = processing_pair._reference_arr
+    if reference_arr.dtype != prediction_arr_relabeled.dtype:
+        # relabeling widened the dtype, keep both arrays in the same one
+        reference_arr = reference_arr.astype(prediction_arr_relabeled.dtype)
     matched_instance_pair = MatchedInstancePair(
         prediction_arr=prediction_arr_relabeled,
-        reference_arr=processing_pair._reference_arr,
+        reference_arr=reference_arr,
     )
     return matched_instance_pair
 
